@@ -2,6 +2,8 @@ import JSight.TreeEvents
 import JSight.TreeSpans
 import JSight.TreeNested
 import JSight.TreeRebuild
+import JSight.SchemaEvents
+import JSight.EnumEvents
 /-!
 # C06 — Lexical events faithfully describe the scanned text
 
@@ -10,6 +12,12 @@ RFC grammar generates for the tree) and `evsAt o v` (the events the tree denotes
 computed from rendered lengths only). Model: `JsonScan.events` (`NextLexeme` of `formats/json`).
 The theorems hold for every valid tree — no bound on depth, width or token length — every layout and
 both scanner modes.
+Second sentence of the property (the clones): `C06_schema_events_of_tree` — the schema scanner model
+(`SchemaScan`, tied by `schema-diff`) scans every plain-JSON value tree (numbers without exponent, any layout
+incl. LF / CR line breaks) into exactly the events the tree denotes plus one `newLine` per line break;
+`C06_schema_is_json_plus_newlines` — on the same bytes the JSON scanner model delivers exactly the schema
+scanner's stream without the `newLine` events; `C06_enum_events` (= `C18_enum_events`) — the enum-rule scanner on
+`ws [ items ] ws`.
 -/
 namespace Props.C06
 open JsonScan
@@ -54,5 +62,34 @@ theorem C06_rebuild (allow : Bool) (v : JA) (hv : v.Valid) (ws0 ws1 : List Cls) 
 theorem C06_string_token (b : List Cls) (hb : StrBody b) : IsScalar (.quote :: (b ++ [.quote])) := string_isScalar b hb
 theorem C06_number_token (t : NumTok) (wf : t.WF) : IsScalar t.render := number_isScalar t wf
 theorem C06_key_token (b : List Cls) (hb : StrBody b) : IsKey (.quote :: (b ++ [.quote])) := string_isKey b hb
+
+/-! ### the clones -/
+
+/-- the schema scanner on plain JSON: exactly the tree's events, plus one `newLine` per line break -/
+theorem C06_schema_events_of_tree (v : SchemaScan.Tree) (hv : v.Json) (ws0 ws1 : List SchemaScan.Cls)
+    (h0 : SchemaScan.IsWs ws0) (h1 : SchemaScan.IsWs ws1)
+    (bs : List UInt8) (hbs : bs.map SchemaScan.classify = ws0 ++ (v.render ++ ws1)) :
+    SchemaScan.scanAll bs
+      = .ok (SchemaScan.nlEvs 0 ws0 ++ (SchemaScan.schemaEvsAt ws0.length v ++
+          SchemaScan.nlEvs (ws0.length + v.render.length) ws1)) :=
+  SchemaScan.C06_schema_events_of_json_text v hv ws0 ws1 h0 h1 bs hbs
+
+/-- clone agreement: on the bytes of a plain-JSON text the JSON scanner delivers the schema scanner's stream
+with the `newLine` events removed, and the schema scanner adds nothing but `newLine` events -/
+theorem C06_schema_is_json_plus_newlines (allow : Bool) (v : SchemaScan.Tree) (hv : v.Json)
+    (ws0 ws1 : List SchemaScan.Cls) (h0 : SchemaScan.IsWs ws0) (h1 : SchemaScan.IsWs ws1)
+    (bs : List UInt8) (hbs : bs.map SchemaScan.classify = ws0 ++ (v.render ++ ws1)) :
+    ∃ sevs, SchemaScan.scanAll bs = .ok sevs ∧ JsonScan.events allow bs = .ok (SchemaScan.jsonPart sevs) ∧
+      sevs.all SchemaScan.jsonOrNl = true :=
+  let ⟨sevs, a, b, c, _⟩ := SchemaScan.C13_schema_scan_is_json_scan_plus_newlines allow v hv ws0 ws1 h0 h1 bs hbs
+  ⟨sevs, a, b, c⟩
+
+open EnumScan in
+/-- the enum-rule scanner on a list of scalar literals -/
+theorem C06_enum_events (pre ws0 post : List UInt8) (items : List Item)
+    (hpre : IsWsB pre) (hws0 : IsWsB ws0) (hpost : IsWsB post) (hv : GValidItems items)
+    (hnd : (items.map itemKey).Nodup) :
+    scanAll (renderEnum pre ws0 items post) = .ok (enumEvsOf pre ws0 items post) :=
+  enum_events pre ws0 post items hpre hws0 hpost hv hnd
 
 end Props.C06
